@@ -236,6 +236,13 @@ pub fn run_history(rng: &mut Rng, o: &Opts, out: &mut Out, hist: usize) {
             else if si < 4 { Step::Exec(gen_big_build(rng, &live, si, false)) }
             else if rng.chance(1, 10) { Step::Exec(gen_mut(rng, &live, Profile::Graph)) }
             else { Step::Exec(Q::SearchQ(Box::new(gen_big_search(rng, &live, false)))) }
+        } else if p == Profile::Index && si < 5 && (si < 3 || rng.chance(1, 2)) {
+            // prologue of the index profile: 3-5 indexes on distinct keys, so that later removals hit the first / a middle / the
+            // last entry of the index list (list order in memory vs in the file, C05; back-fill and exactness, C11)
+            Step::Exec(Q::InsertIndex(DbValue::String(format!("k{}", si))))
+        } else if p == Profile::Index && si >= 5 && !live.index_keys.is_empty() && rng.chance(1, 9) {
+            // remove an existing index chosen by POSITION (first, middle, last equally likely)
+            Step::Exec(Q::RemoveIndex(rng.pick(&live.index_keys).clone()))
         } else if roll < txn_share {
             let k = rng.range(1, 5) as usize;
             let qs: Vec<Q> = (0..k).map(|_| if rng.chance(1, 6) { gen_select(rng, &live, p) } else { gen_mut(rng, &live, p) }).collect();
